@@ -103,6 +103,9 @@ type Gen struct {
 	synOwner    map[int]int
 	nextSynTag  int
 	cutHook     func()
+	curCall     *ssa.Call
+	cellConstOK map[string]bool
+	cellConst   [][3]string   // (object, offset, numeral) of cells fixed by the current case of a contract split
 	cutBase     *cutBaseState // state at the entry of the unrolled loop: later iterations are havocked relative to it
 	obls        []*Obligation
 	ncnt        int
@@ -816,7 +819,15 @@ func (g *Gen) run() {
 				if !g.preludesCover(c.E) {
 					continue // the invariant speaks a vocabulary this unit does not use
 				}
-				g.assumeRaw(g.specBool(&sub, c.E))
+				nerr, nline := len(g.errs), len(g.lines)
+				t := g.specBool(&sub, c.E)
+				if len(g.errs) > nerr {
+					// stated for another view of the data (e.g. field view of fr.Element in a limb-view unit): not usable here
+					g.errs = g.errs[:nerr]
+					g.lines = g.lines[:nline]
+					continue
+				}
+				g.assumeRaw(t)
 				g.assumedUsed["package invariant (established by init, preserved because nothing writes the variable: C13 sweep): "+c.Text] = true
 			}
 		}
@@ -848,6 +859,20 @@ func (g *Gen) run() {
 		}
 		env.goal = false
 		g.assumeRaw(g.specBool(env, g.ct.Split[g.splitCase].E))
+		// a case of the form  <location> == <numeral>  makes later loads of that location literal (each such load is
+		// justified by its own obligation that the cell still holds the value), so that shifts, divisions and
+		// remainders by it are linear
+		if ce := g.ct.Split[g.splitCase].E; ce.Op == "bin" && ce.Tok == "==" && len(ce.Args) == 2 {
+			lhs, rhs := ce.Args[0], ce.Args[1]
+			if lhs.Op == "num" {
+				lhs, rhs = rhs, lhs
+			}
+			if rhs.Op == "num" {
+				if _, o, off, ok := g.addrOf(env, lhs); ok {
+					g.cellConst = append(g.cellConst, [3]string{o, off, rhs.Tok})
+				}
+			}
+		}
 	}
 	// vacuity: the precondition must be satisfiable
 	cov := g.obligeNamed(g.unit+"#cover.pre", "cover", "false", fn.Pos(), "precondition is satisfiable", nil)
@@ -1247,6 +1272,7 @@ func (g *Gen) walkUnrolled(li *loopInfo, body []*ssa.BasicBlock, n int) {
 	}
 	var headerExits []hv
 	savedTag := g.unrollTag
+	exitTags := map[int]bool{} // iterations from which the loop can be left: what follows the loop depends on these only
 	recordExits := func(b *ssa.BasicBlock) {
 		st := g.states[b]
 		if st == nil || st.conds == nil {
@@ -1255,6 +1281,12 @@ func (g *Gen) walkUnrolled(li *loopInfo, body []*ssa.BasicBlock, n int) {
 		for i, s := range b.Succs {
 			if li.body[s] {
 				continue
+			}
+			if and(st.reach, st.conds[i]) == "false" {
+				continue // this exit cannot be taken in this iteration (concrete counter)
+			}
+			if g.tagOverride >= synTagBase {
+				exitTags[g.tagOverride] = true
 			}
 			e := inEdge{cond: g.def(fmt.Sprintf("exit_%d_%d", b.Index, s.Index), "Bool", and(st.reach, st.conds[i])), st: st, phi: map[*ssa.Phi]*Val{}}
 			for _, in := range s.Instrs {
@@ -1407,6 +1439,9 @@ func (g *Gen) walkUnrolled(li *loopInfo, body []*ssa.BasicBlock, n int) {
 	if savedOverride >= synTagBase {
 		// the enclosing iteration continues after this loop and needs what its iterations established
 		for _, t := range iterTags {
+			if len(exitTags) > 0 && !exitTags[t] {
+				continue
+			}
 			g.synAnc[savedOverride][t] = true
 			for a := range g.synAnc[t] {
 				if a >= synTagBase {
